@@ -1157,3 +1157,542 @@ Section LogStep.
       rewrite app_nil_r. split; [reflexivity | split; [congruence | exact Et]].
   Qed.
 End LogStep.
+
+(* ------------------------------------------------------------------ C03_log over histories; prefixes *)
+Section LogHistory.
+  Variable W H : N.
+
+  Lemma hist_log_run : forall h s g t,
+    J (s_mp s) -> no_own_term s -> FitsAll W H s h ->
+    mg_log (snd (fst (ms_run W H (s, g, t) h))) = mg_log g ++ hist_log W H s h
+    /\ J (s_mp (fst (fst (ms_run W H (s, g, t) h)))).
+  Proof.
+    induction h as [|[now o] h IH]; intros s g t HJ Hno Hfit.
+    - cbn. rewrite app_nil_r. auto.
+    - change (ms_run W H (s, g, t) ((now, o) :: h)) with (ms_run W H (ms_step W H (s, g, t) (now, o)) h).
+      cbn [hist_log].
+      cbn [FitsAll fst snd] in Hfit. destruct Hfit as [Hf1 Hf2].
+      destruct (op_log_step W H s now o g HJ Hno Hf1) as [Hl HJ'].
+      pose proof (step_mp W H nofaults s now o) as [Hmp _].
+      pose proof (no_own_step W H nofaults s now o Hno) as Hno'.
+      unfold ms_step at 1 2. unfold step_sys in *. cbn [fst snd] in *.
+      destruct (step W H nofaults s now o) as [[s' e] ok]. cbn [fst snd] in *.
+      rewrite <- Hmp in HJ'.
+      destruct (IH s' (g_run W H now (s_mp s) (s_calls s) (op_actions W s now o) g)
+                   (run_ops (N.to_nat W) (N.to_nat H) t e) HJ' Hno' Hf2) as [IH1 IH2].
+      rewrite IH1, Hl, <- app_assoc. auto.
+  Qed.
+
+  Lemma FitsAll_prefix : forall h1 h2 s, FitsAll W H s (h1 ++ h2) -> FitsAll W H s h1.
+  Proof.
+    induction h1 as [|x h1 IH]; intros h2 s Hf; [exact I|].
+    cbn [app FitsAll] in *. destruct Hf as [Ha Hb]. split; [exact Ha | eapply IH; exact Hb].
+  Qed.
+
+  Lemma ms_run_app st h1 h2 : ms_run W H st (h1 ++ h2) = ms_run W H (ms_run W H st h1) h2.
+  Proof. unfold ms_run. apply fold_left_app. Qed.
+
+  Lemma ms_run_sys : forall h s g t,
+    fst (fst (ms_run W H (s, g, t) h)) = MultiSpec.run W H nofaults s h.
+  Proof.
+    induction h as [|[now o] h IH]; intros s g t; [reflexivity|].
+    unfold ms_run. cbn [fold_left MultiSpec.run]. fold (ms_run W H).
+    unfold ms_step, step_sys. cbn [fst snd].
+    destruct (step W H nofaults s now o) as [[s' e] ok]. cbn [fst]. apply IH.
+  Qed.
+
+  Lemma FitsAll_suffix : forall h1 h2 s, FitsAll W H s (h1 ++ h2) ->
+    FitsAll W H (MultiSpec.run W H nofaults s h1) h2.
+  Proof.
+    induction h1 as [|[now o] h1 IH]; intros h2 s Hf; [exact Hf|].
+    cbn [app FitsAll MultiSpec.run fst snd] in *. destruct Hf as [_ Hb]. apply IH. exact Hb.
+  Qed.
+End LogHistory.
+
+Lemma ms_initial_J s0 : ms_initial s0 -> J (s_mp s0) /\ no_own_term s0.
+Proof. intros (Hno & tg & Ht & _ & _ & _ & _ & Ho & _). split; [split; [exact Ho | eauto] | exact Hno]. Qed.
+
+(** C03_log: after every history the rows of the log - every line printed so far, read off the
+    calls ([hist_log]), in emission order, each exactly once - are on the screen directly below the
+    earlier content [pre] and above the kept rows and the live region, whose sizes are the two row
+    counters: no draw / tick / finish / drop / clear / removal / println (refused draws included)
+    erased, duplicated or reordered any of them *)
+Theorem c03_log W H pre s0 t0 h : 1 <= W -> 1 <= H ->
+  ms_initial s0 -> ready (N.to_nat W) (N.to_nat H) pre t0 -> FitsAll W H s0 h ->
+  let s := fst (fst (ms_run W H (s0, mghost0, t0) h)) in
+  let g := snd (fst (ms_run W H (s0, mghost0, t0) h)) in
+  let t := snd (ms_run W H (s0, mghost0, t0) h) in
+  mg_log g = hist_log W H s0 h
+  /\ (exists k, screen (N.to_nat W) t
+        = map (pad (N.to_nat W)) (pre ++ wrap (N.to_nat W) (hist_log W H s0 h) ++ mg_kept g ++ mg_live g)
+          ++ repeat (repeat SP (N.to_nat W)) k)
+  /\ length (mg_kept g) = N.to_nat (ms_zombie_lines (s_mp s))
+  /\ length (mg_live g) = N.to_nat (target_n (ms_target (s_mp s)))
+  /\ ms_orphans (s_mp s) = [].
+Proof.
+  intros HW HH Hi Hr Hf. cbv zeta.
+  destruct (ms_initial_J s0 Hi) as [HJ Hno].
+  destruct (hist_log_run W H h s0 mghost0 t0 HJ Hno Hf) as [Hlog [Ho _]]. cbn [mghost0 mg_log app] in Hlog.
+  destruct (c02_screen W H HW HH pre s0 t0 h Hi Hr Hf) as [Hscr _]. cbv zeta in Hscr.
+  pose proof (ms_invariant W H HW HH pre s0 t0 h Hi Hr Hf) as [_ Hinv].
+  destruct (ms_run W H (s0, mghost0, t0) h) as [[s g] t]. cbn [fst snd] in *.
+  unfold ms_expected in Hscr. rewrite Hlog in Hscr.
+  destruct Hinv as (tg & Ht & _ & _ & _ & _ & L & K & F & _ & _ & HK & HF & HlF & HlK & _).
+  rewrite Ht. cbn [target_n].
+  rewrite <- (rows_equiv_length _ _ _ HK), <- (rows_equiv_length _ _ _ HF).
+  repeat split; assumption.
+Qed.
+
+(* ------------------------------------------------------------------ the live region is the members' stored lines *)
+(** [Clean]: the live rows are exactly the stored lines of the members that are in the ordering,
+    in ordering order (each member once: the ordering has no duplicates) *)
+Definition Clean (W : N) (m : mstate) (g : mghost) : Prop :=
+  mg_live g = wrap (N.to_nat W) (map lt (bar_lines_of m)).
+
+Section CleanActs.
+  Variable W H : N.
+  Hypothesis HW : 1 <= W.
+
+  Lemma lines_ext mems mems' (l : list N) :
+    (forall j, In j l -> nthN mems' j member_default = nthN mems j member_default) ->
+    concat (map (member_lines mems') l) = concat (map (member_lines mems) l).
+  Proof.
+    intros He. f_equal. apply map_ext_in. intros j Hj. unfold member_lines. now rewrite (He j Hj).
+  Qed.
+
+  (** an attempted draw leaves in the ordering exactly the members behind the head zombies, with
+      their stored lines untouched *)
+  Lemma draw_lines m force extra now c tg :
+    CoreInv m -> ms_target m = TTerm tg -> ms_attempt W m force extra now = true ->
+    bar_lines_of (fst4 (ms_draw W H nofaults m force extra now c)) = rest_lines_of m.
+  Proof.
+    intros CI Ht Ha. rewrite (ms_draw_unfold W H nofaults m force extra now c tg Ht). cbv zeta.
+    unfold ms_attempt in Ha. rewrite Ht in Ha. fold (ms_has_text m extra) in Ha. rewrite Ha. cbn [negb].
+    unfold fst4. cbn [fst].
+    match goal with |- context [fold_left ms_remove_idx _ ?m0] => set (m0' := m0) end.
+    assert (Hs : same_core m m0') by (repeat split).
+    destruct (ms_reap_spec m0' m CI Hs) as (_ & B & C & _). cbv zeta in B, C.
+    set (m2 := fold_left ms_remove_idx (head_zombies (ms_order m) (ms_members m)) m0') in *.
+    assert (E : bar_lines_of m2 = rest_lines_of m).
+    { unfold bar_lines_of, rest_lines_of. rewrite B. apply lines_ext. intros j Hj. apply C. rewrite B. exact Hj. }
+    destruct (ms_has_text m extra); exact E.
+  Qed.
+
+  Lemma draw_clean m force extra now c tg g :
+    CoreInv m -> ms_target m = TTerm tg -> ms_attempt W m force extra now = true ->
+    ms_has_text m extra = false ->
+    Clean W (fst4 (ms_draw W H nofaults m force extra now c)) (g_draw W m extra g).
+  Proof.
+    intros CI Ht Ha Hht. unfold Clean. rewrite (draw_lines m force extra now c tg CI Ht Ha).
+    unfold g_draw. rewrite Hht. reflexivity.
+  Qed.
+
+  Lemma firstn_app_exact {A} (a b : list A) : firstn (length a) (a ++ b) = a.
+  Proof. rewrite firstn_app, Nat.sub_diag, firstn_all. cbn. apply app_nil_r. Qed.
+  Lemma skipn_app_exact {A} (a b : list A) : skipn (length a) (a ++ b) = b.
+  Proof. rewrite skipn_app, Nat.sub_diag, skipn_all. reflexivity. Qed.
+
+  (** mark_zombie on a Clean region: at the head the member's own rows become kept rows *)
+  Lemma mark_clean m idx now g :
+    CoreInv m -> In idx (ms_order m) -> Clean W m g ->
+    length (mg_live g) = N.to_nat (target_n (ms_target m)) ->
+    let g' := g_act W now m (AMark idx) g in
+    Clean W (ms_mark_zombie W m idx) g'
+    /\ mg_log g' = mg_log g
+    /\ mg_kept g' ++ mg_live g' = mg_kept g ++ mg_live g
+    /\ mg_kept g' = mg_kept g ++ (match ms_order m with
+                                  | first :: _ => if N.eqb idx first
+                                                  then wrap (N.to_nat W) (map lt (member_lines (ms_members m) idx))
+                                                  else []
+                                  | [] => []
+                                  end).
+  Proof using HW.
+    intros CI Hi Hc Hlen. cbv zeta.
+    destruct (ms_mark_zombie_spec W m idx CI Hi) as (first & rest & Ho & _ & _ & Hhead & Hbehind).
+    cbn [g_act]. rewrite Ho.
+    destruct (N.eqb_spec idx first) as [->|Hne].
+    - destruct (Hhead eq_refl) as (Eo & Hnr & Em).
+      assert (Hsplit : bar_lines_of m = member_lines (ms_members m) first ++ bar_lines_of (ms_mark_zombie W m first)).
+      { unfold bar_lines_of. rewrite Ho, Eo. cbn [map concat]. f_equal. symmetry. apply lines_ext.
+        intros j Hj. apply Em. intros ->. exact (Hnr Hj). }
+      unfold Clean in *. rewrite Hsplit, map_app, wrap_app in Hc.
+      assert (Hlc : N.to_nat (N.min (member_vlc (nthN (ms_members m) first member_default) W) (target_n (ms_target m)))
+                    = length (wrap (N.to_nat W) (map lt (member_lines (ms_members m) first)))).
+      { assert (Ev : member_vlc (nthN (ms_members m) first member_default) W
+                     = visual_line_count (member_lines (ms_members m) first) W).
+        { unfold member_vlc, member_lines. destruct (m_lines (nthN (ms_members m) first member_default)); reflexivity. }
+        pose proof Hlen as Hl2. rewrite Hc, app_length, !wrap_length in Hl2 by exact HW.
+        rewrite wrap_length by exact HW. rewrite Ev. lia. }
+      unfold g_keep. cbn [mg_log mg_kept mg_live]. rewrite Hlc, Hc, firstn_app_exact, skipn_app_exact.
+      repeat split. now rewrite <- app_assoc.
+    - destruct (Hbehind (not_eq_sym Hne)) as (Eo & Ei & Em & _).
+      assert (E : bar_lines_of (ms_mark_zombie W m idx) = bar_lines_of m).
+      { unfold bar_lines_of. rewrite Eo. f_equal. apply map_ext. intros j. unfold member_lines.
+        destruct (N.eq_dec j idx) as [->|Hj]; [rewrite Ei; reflexivity | rewrite (Em j Hj); reflexivity]. }
+      unfold Clean. rewrite E, app_nil_r. repeat split. exact Hc.
+  Qed.
+End CleanActs.
+
+(* ------------------------------------------------------------------ C04_kept: finishing calls and drops on a Clean region *)
+Section KeptPhase.
+  Variable W H : N.
+  Hypothesis HW : 1 <= W.
+  Hypothesis HH : 1 <= H.
+  Variable pre : list (list N).
+
+  Lemma fits_run_app now acts1 : forall m c acts2,
+    fits_run W H now m c (acts1 ++ acts2) ->
+    fits_run W H now m c acts1
+    /\ let '(m1, _, c1) := mp_run W H nofaults now m c acts1 in fits_run W H now m1 c1 acts2.
+  Proof.
+    induction acts1 as [|a r IH]; intros m c acts2 Hf; cbn [app fits_run mp_run] in *; [auto|].
+    destruct Hf as [Ha Hr]. destruct (mp_exec1 W H nofaults now m c a) as [[[m1 e1] c1] ok1].
+    destruct (IH m1 c1 acts2 Hr) as [H1 H2].
+    destruct (mp_run W H nofaults now m1 c1 r) as [[m2 e2] c2]. auto.
+  Qed.
+
+  Lemma reap_run_app now acts1 : forall m c acts2,
+    reap_run W H now m c (acts1 ++ acts2) =
+    reap_run W H now m c acts1 ++
+    (let '(m1, _, c1) := mp_run W H nofaults now m c acts1 in reap_run W H now m1 c1 acts2).
+  Proof.
+    induction acts1 as [|a r IH]; intros m c acts2; cbn [app reap_run mp_run]; [reflexivity|].
+    destruct (mp_exec1 W H nofaults now m c a) as [[[m1 e1] c1] ok1]. rewrite IH, <- app_assoc.
+    destruct (mp_run W H nofaults now m1 c1 r) as [[m2 e2] c2]. reflexivity.
+  Qed.
+
+  (** a forced draw of a member (finish / finish_using_style / force_draw / the finish inside drop):
+      store, paint, reap the head zombies - the region is Clean afterwards, the kept rows grow by
+      the reaped members' rows *)
+  Lemma kept_draw_actions s1 b now c g :
+    CoreInv (s_mp s1) -> J (s_mp s1) ->
+    (forall idx, b_target (get_bar s1 b) = TMulti idx ->
+                 In idx (ms_order (s_mp s1)) /\ zflag (s_mp s1) idx = false) ->
+    let acts := draw_actions W s1 b true in
+    let m' := fst (fst (mp_run W H nofaults now (s_mp s1) c acts)) in
+    let g' := g_run W H now (s_mp s1) c acts g in
+    (Clean W (s_mp s1) g -> Clean W m' g')
+    /\ mg_kept g' = mg_kept g ++ wrap (N.to_nat W) (map lt (reap_run W H now (s_mp s1) c acts))
+    /\ CoreInv m'
+    /\ (forall idx, b_target (get_bar s1 b) = TMulti idx -> In idx (ms_order m')).
+  Proof.
+    intros CI [Ho [tg Ht]] Hidx. cbv zeta. unfold draw_actions.
+    destruct (b_target (get_bar s1 b)) as [|tg0|idx] eqn:Etg.
+    - cbn. rewrite app_nil_r. split; [auto|]. split; [reflexivity|]. split; [exact CI|]. intros ? E; discriminate E.
+    - cbn. rewrite app_nil_r. split; [auto|]. split; [reflexivity|]. split; [exact CI|]. intros ? E; discriminate E.
+    - destruct (Hidx idx eq_refl) as [Hin Hzf].
+      set (bars := stored_frame W (s_mp s1) (get_bar s1 b)).
+      cbn [mp_run g_run reap_run mp_exec1 g_act reap_act app].
+      set (m1 := ms_store (s_mp s1) idx [] bars).
+      pose proof (ms_store_trans (s_mp s1) idx [] bars CI Hin) as T1.
+      assert (CI1 : CoreInv m1) by exact (mt_core _ _ _ T1).
+      assert (Ht1 : ms_target m1 = TTerm tg) by exact Ht.
+      assert (Ho1 : ms_orphans m1 = []) by (unfold m1, ms_store; cbn; rewrite Ho; reflexivity).
+      assert (Hht : ms_has_text m1 None = false) by (unfold ms_has_text; rewrite Ho1; reflexivity).
+      assert (Ha : ms_attempt W m1 (true || finished (get_bar s1 b)) None now = true)
+        by (cbn [orb]; exact (attempt_forced W m1 None now tg Ht1)).
+      pose proof (draw_clean W H m1 (true || finished (get_bar s1 b)) None now c tg g CI1 Ht1 Ha Hht) as Hc.
+      pose proof (ms_draw_trans W H nofaults m1 (true || finished (get_bar s1 b)) None now c CI1) as T2.
+      rewrite Ha in T2. unfold fst4 in *.
+      destruct (ms_draw W H nofaults m1 (true || finished (get_bar s1 b)) None now c) as [[[m2 e2] c2] ok2].
+      cbn [fst snd] in *. rewrite Ha, Hht. cbn [andb negb].
+      split; [intros _; exact Hc|]. split.
+      + unfold g_draw. rewrite Hht. cbn [mg_kept]. rewrite !app_nil_r. reflexivity.
+      + split; [exact (mt_core _ _ _ T2)|]. intros idx' E. injection E as <-.
+        rewrite (mt_order _ _ _ T2). apply drop_while_keep.
+        * exact Hin.
+        * etransitivity; [apply (mt_zflag _ _ _ T1); exact Hin | exact Hzf].
+  Qed.
+
+  Lemma AInv_live_len m t g : AInv W H pre m t g ->
+    length (mg_live g) = N.to_nat (target_n (ms_target m)).
+  Proof.
+    intros (tg & Ht & _ & _ & _ & _ & L & K & F & _ & _ & _ & HF & HlF & _).
+    rewrite Ht. cbn [target_n]. rewrite <- HlF. symmetry. exact (rows_equiv_length _ _ _ HF).
+  Qed.
+
+  Lemma finish_upd_target k : keeps_target (finish_upd k).
+  Proof. intros x. destruct k; cbn; destruct (b_len x); reflexivity. Qed.
+
+  (** one call of the final phase on a Clean region *)
+  Lemma kept_step s g t now o :
+    MInv s -> op_ok s o = true -> kept_op o = true ->
+    SInv W H pre (s, g, t) -> J (s_mp s) ->
+    fits_run W H now (s_mp s) (s_calls s) (op_actions W s now o) ->
+    Clean W (s_mp s) g ->
+    let acts := op_actions W s now o in
+    let g' := g_run W H now (s_mp s) (s_calls s) acts g in
+    let m' := fst (fst (mp_run W H nofaults now (s_mp s) (s_calls s) acts)) in
+    Clean W m' g'
+    /\ mg_kept g' = mg_kept g ++ wrap (N.to_nat W) (map lt (reap_run W H now (s_mp s) (s_calls s) acts)).
+  Proof using HW HH.
+    intros MI Hok Hk [Hno Hinv] HJ Hfit Hc. cbn [fst snd] in Hno, Hinv. cbv zeta.
+    pose proof (MInv_core s MI) as CI.
+    assert (Hmem : forall b idx, alive s b = true -> b_target (get_bar s b) = TMulti idx ->
+                   In idx (ms_order (s_mp s)) /\ zflag (s_mp s) idx = false).
+    { intros b idx Ha Htg. exact (mi_alive s MI b idx Ha Htg). }
+    assert (Hdraw : forall b f, keeps_target f -> alive s b = true ->
+              let acts := draw_actions W (upd_bar s b f) b true in
+              Clean W (fst (fst (mp_run W H nofaults now (s_mp s) (s_calls s) acts)))
+                      (g_run W H now (s_mp s) (s_calls s) acts g)
+              /\ mg_kept (g_run W H now (s_mp s) (s_calls s) acts g)
+                 = mg_kept g ++ wrap (N.to_nat W) (map lt (reap_run W H now (s_mp s) (s_calls s) acts))
+              /\ CoreInv (fst (fst (mp_run W H nofaults now (s_mp s) (s_calls s) acts)))
+              /\ (forall idx, b_target (get_bar s b) = TMulti idx ->
+                              In idx (ms_order (fst (fst (mp_run W H nofaults now (s_mp s) (s_calls s) acts)))))).
+    { intros b f Hf Ha. cbv zeta.
+      destruct (kept_draw_actions (upd_bar s b f) b now (s_calls s) g CI HJ) as (A & B & C & D).
+      { intros idx Htg. rewrite (target_upd s b f Hf) in Htg. exact (Hmem b idx Ha Htg). }
+      split; [exact (A Hc)|]. split; [exact B|]. split; [exact C|].
+      intros idx Htg. apply D. rewrite (target_upd s b f Hf). exact Htg. }
+    destruct o; try discriminate Hk; cbn [op_actions];
+      assert (Hal : alive s b = true) by (unfold op_ok in Hok; cbn in Hok; apply andb_prop in Hok; exact (proj1 Hok)).
+    - (* OFinish *)
+      destruct (Hdraw b (finish_upd k) (finish_upd_target k) Hal) as (A & B & _). split; assumption.
+    - (* OFinishUsingStyle *)
+      destruct (Hdraw b (finish_upd (b_on_finish (get_bar s b))) (finish_upd_target _) Hal) as (A & B & _). split; assumption.
+    - (* OForceDraw *)
+      destruct (kept_draw_actions s b now (s_calls s) g CI HJ) as (A & B & _); [intros idx Htg; exact (Hmem b idx Hal Htg)|].
+      split; [exact (A Hc) | exact B].
+    - (* OSetTabWidth *)
+      destruct (kept_draw_actions s b now (s_calls s) g CI HJ) as (A & B & _); [intros idx Htg; exact (Hmem b idx Hal Htg)|].
+      split; [exact (A Hc) | exact B].
+    - (* ODrop *)
+      cbn [op_actions] in Hfit.
+      set (A1 := if finished (get_bar s b) then [] else finish_actions W s b (b_on_finish (get_bar s b))) in *.
+      set (A2 := match b_target (get_bar s b) with TMulti idx => [AMark idx] | _ => [] end) in *.
+      assert (F1 : Clean W (fst (fst (mp_run W H nofaults now (s_mp s) (s_calls s) A1)))
+                           (g_run W H now (s_mp s) (s_calls s) A1 g)
+                   /\ mg_kept (g_run W H now (s_mp s) (s_calls s) A1 g)
+                      = mg_kept g ++ wrap (N.to_nat W) (map lt (reap_run W H now (s_mp s) (s_calls s) A1))
+                   /\ CoreInv (fst (fst (mp_run W H nofaults now (s_mp s) (s_calls s) A1)))
+                   /\ (forall idx, b_target (get_bar s b) = TMulti idx ->
+                                   In idx (ms_order (fst (fst (mp_run W H nofaults now (s_mp s) (s_calls s) A1)))))).
+      { unfold A1. destruct (finished (get_bar s b)).
+        - cbn. rewrite app_nil_r. split; [exact Hc|]. split; [reflexivity|]. split; [exact CI|].
+          intros idx Htg. exact (proj1 (Hmem b idx Hal Htg)).
+        - unfold finish_actions. apply Hdraw; [apply finish_upd_target | exact Hal]. }
+      destruct F1 as (Hc1 & Hk1 & CI1 & Hin1).
+      assert (Hwf1 : Forall act_wf A1).
+      { pose proof (op_actions_wf W s now (ODrop b)) as Hwf. cbn [op_actions] in Hwf.
+        apply Forall_app in Hwf. exact (proj1 Hwf). }
+      destruct (fits_run_app now A1 (s_mp s) (s_calls s) A2 Hfit) as [Hf1 _].
+      pose proof (acts_inv W H HW HH pre now A1 (s_mp s) t g (s_calls s) Hinv Hwf1 Hf1) as Hinv1. cbv zeta in Hinv1.
+      rewrite g_run_app, mp_run_app, reap_run_app.
+      destruct (mp_run W H nofaults now (s_mp s) (s_calls s) A1) as [[m1 e1] c1]. cbn [fst snd] in *.
+      unfold A2. destruct (b_target (get_bar s b)) as [|tg0|idx].
+      + cbn. rewrite !app_nil_r. split; assumption.
+      + cbn. rewrite !app_nil_r. split; assumption.
+      + pose proof (mark_clean W HW m1 idx now (g_run W H now (s_mp s) (s_calls s) A1 g) CI1 (Hin1 idx eq_refl) Hc1
+                      (AInv_live_len _ _ _ Hinv1)) as (Mc & _ & _ & Mk).
+        cbn [mp_run g_run reap_run mp_exec1 fst snd reap_act]. rewrite app_nil_r.
+        split; [exact Mc|]. rewrite Mk, Hk1, map_app, wrap_app, <- app_assoc. f_equal. f_equal.
+        destruct (ms_order m1) as [|first rest]; [reflexivity|]. destruct (idx =? first); reflexivity.
+  Qed.
+End KeptPhase.
+
+Section KeptRun.
+  Variable W H : N.
+  Hypothesis HW : 1 <= W.
+  Hypothesis HH : 1 <= H.
+  Variable pre : list (list N).
+
+  Lemma hist_ok_app : forall h1 h2 s, MultiSpec.hist_ok W H nofaults s (h1 ++ h2) ->
+    MultiSpec.hist_ok W H nofaults s h1
+    /\ MultiSpec.hist_ok W H nofaults (MultiSpec.run W H nofaults s h1) h2.
+  Proof.
+    induction h1 as [|[now o] h1 IH]; intros h2 s Hh; cbn [app MultiSpec.hist_ok MultiSpec.run] in *; [auto|].
+    destruct Hh as [Ha Hb]. destruct (IH h2 _ Hb). auto.
+  Qed.
+
+  Lemma hist_log_kept : forall h s, Forall (fun x => kept_op (snd x) = true) h -> hist_log W H s h = [].
+  Proof.
+    induction h as [|[now o] h IH]; intros s Hk; [reflexivity|].
+    inversion Hk as [|? ? Ho Hr]; subst. cbn [hist_log fst snd] in *. rewrite (IH _ Hr), app_nil_r.
+    destruct o; try discriminate Ho; reflexivity.
+  Qed.
+
+  Lemma hist_log_app_kept h2 : Forall (fun x => kept_op (snd x) = true) h2 ->
+    forall h1 s, hist_log W H s (h1 ++ h2) = hist_log W H s h1.
+  Proof.
+    intros Hk. induction h1 as [|x h1 IH]; intros s; cbn [app hist_log].
+    - apply hist_log_kept. exact Hk.
+    - rewrite IH. reflexivity.
+  Qed.
+
+  (** the final phase, any number of finishing calls and drops in any order, from a Clean region *)
+  Lemma kept_run : forall h s g t,
+    MInv s -> (exists a, Refines s a) -> SInv W H pre (s, g, t) -> J (s_mp s) -> Clean W (s_mp s) g ->
+    MultiSpec.hist_ok W H nofaults s h -> FitsAll W H s h ->
+    Forall (fun x => kept_op (snd x) = true) h ->
+    let st := ms_run W H (s, g, t) h in
+    Clean W (s_mp (fst (fst st))) (snd (fst st))
+    /\ mg_kept (snd (fst st)) = mg_kept g ++ wrap (N.to_nat W) (map lt (reaped_hist W H s h)).
+  Proof using HW HH.
+    induction h as [|[now o] h IH]; intros s g t MI [a RF] Hinv HJ Hc Hh Hf Hk; cbv zeta.
+    - cbn. rewrite app_nil_r. auto.
+    - change (ms_run W H (s, g, t) ((now, o) :: h)) with (ms_run W H (ms_step W H (s, g, t) (now, o)) h).
+      cbn [MultiSpec.hist_ok] in Hh. destruct Hh as [Hok Hh'].
+      cbn [FitsAll fst snd] in Hf. destruct Hf as [Hf1 Hf2].
+      inversion Hk as [|? ? Hko Hk']; subst. cbn [snd] in Hko.
+      destruct (kept_step W H HW HH pre s g t now o MI Hok Hko Hinv HJ Hf1 Hc) as [Hc1 Hk1]. cbv zeta in Hc1, Hk1.
+      pose proof (ms_step_inv W H HW HH pre s g t now o Hinv Hf1) as Hinv1.
+      destruct Hinv as [Hno _].
+      destruct (op_log_step W H s now o g HJ Hno Hf1) as [_ HJ1].
+      destruct (step_sim W H nofaults s a now o MI RF Hok) as (r & MI1 & RF1).
+      pose proof (step_mp W H nofaults s now o) as [Hmp _].
+      unfold ms_step in *. unfold step_sys in *. cbn [fst snd] in *. cbn [reaped_hist fst snd].
+      destruct (step W H nofaults s now o) as [[s' e] ok]. cbn [fst snd] in *.
+      rewrite <- Hmp in Hc1, HJ1.
+      destruct (IH s' _ _ MI1 (ex_intro _ _ RF1) Hinv1 HJ1 Hc1 Hh' Hf2 Hk') as [IHc IHk].
+      split; [exact IHc|]. rewrite IHk, Hk1, map_app, wrap_app, <- app_assoc. reflexivity.
+  Qed.
+
+  (** C04_kept (final phase = finishing calls and drops): [h1] any history that ends in a Clean
+      region, [h2] finishing calls and drops in any order: nothing of the kept rows is erased, the rows
+      of every member reaped in [h2] (its stored lines when it was reaped) are kept in reap order,
+      the members still in the ordering follow with their stored lines *)
+  Theorem c04_kept s0 t0 h1 h2 :
+    init_ok s0 -> ms_initial s0 -> ready (N.to_nat W) (N.to_nat H) pre t0 ->
+    MultiSpec.hist_ok W H nofaults s0 (h1 ++ h2) -> FitsAll W H s0 (h1 ++ h2) ->
+    Forall (fun x => kept_op (snd x) = true) h2 ->
+    let st1 := ms_run W H (s0, mghost0, t0) h1 in
+    let s1 := fst (fst st1) in let g1 := snd (fst st1) in
+    Clean W (s_mp s1) g1 ->
+    let st := ms_run W H (s0, mghost0, t0) (h1 ++ h2) in
+    let s := fst (fst st) in let g := snd (fst st) in let t := snd st in
+    Clean W (s_mp s) g
+    /\ mg_log g = hist_log W H s0 h1
+    /\ mg_kept g = mg_kept g1 ++ wrap (N.to_nat W) (map lt (reaped_hist W H s1 h2))
+    /\ exists k, screen (N.to_nat W) t
+         = map (pad (N.to_nat W))
+               (pre ++ wrap (N.to_nat W) (hist_log W H s0 h1) ++ mg_kept g1
+                    ++ wrap (N.to_nat W) (map lt (reaped_hist W H s1 h2 ++ bar_lines_of (s_mp s))))
+           ++ repeat (repeat SP (N.to_nat W)) k.
+  Proof using HW HH.
+    intros Hio Hi Hr Hh Hf Hk. cbv zeta. intros Hc1.
+    destruct (hist_ok_app h1 h2 s0 Hh) as [Hh1 Hh2].
+    destruct (init_inv H nofaults s0 Hio) as [MI0 RF0].
+    destruct (sim_run_end W H nofaults h1 s0 _ (sim_run W H nofaults h1 s0 _ MI0 RF0 Hh1)) as (a1 & MI1 & RF1).
+    destruct (ms_initial_J s0 Hi) as [HJ0 Hno0].
+    pose proof (FitsAll_prefix W H h1 h2 s0 Hf) as Hf1.
+    pose proof (FitsAll_suffix W H h1 h2 s0 Hf) as Hf2.
+    pose proof (ms_invariant W H HW HH pre s0 t0 h1 Hi Hr Hf1) as Hinv1.
+    destruct (hist_log_run W H h1 s0 mghost0 t0 HJ0 Hno0 Hf1) as [Hlog1 HJ1].
+    pose proof (ms_run_sys W H h1 s0 mghost0 t0) as Hsys1.
+    destruct (c03_log W H pre s0 t0 (h1 ++ h2) HW HH Hi Hr Hf) as (Hlog & Hscr & _). cbv zeta in Hlog, Hscr.
+    rewrite ms_run_app in *.
+    destruct (ms_run W H (s0, mghost0, t0) h1) as [[s1 g1] t1]. cbn [fst snd] in *. subst s1.
+    destruct (kept_run h2 _ g1 t1 MI1 (ex_intro _ _ RF1) Hinv1 HJ1 Hc1 Hh2 Hf2 Hk) as [Hc Hkept].
+    cbv zeta in Hc, Hkept.
+    split; [exact Hc|]. split.
+    - rewrite Hlog. apply hist_log_app_kept. exact Hk.
+    - split; [exact Hkept|].
+      destruct Hscr as [k Hscr]. exists k. rewrite Hscr.
+      rewrite (hist_log_app_kept h2 Hk h1 s0), Hkept, Hc, (map_app lt), wrap_app, <- !app_assoc. reflexivity.
+  Qed.
+End KeptRun.
+
+(* ------------------------------------------------------------------ C02: after a forced draw the live rows are the members' lines *)
+Definition forced_member_op (s : sys) (o : op) : bool :=
+  match o with
+  | OFinish b _ | OFinishUsingStyle b | OForceDraw b | OSetTabWidth b | ORemove b => is_member s b
+  | _ => false
+  end.
+
+Section LiveForced.
+  Variable W H : N.
+
+  Lemma forced_member_clean s1 b idx now c g :
+    CoreInv (s_mp s1) -> J (s_mp s1) -> b_target (get_bar s1 b) = TMulti idx -> In idx (ms_order (s_mp s1)) ->
+    let acts := draw_actions W s1 b true in
+    Clean W (fst (fst (mp_run W H nofaults now (s_mp s1) c acts))) (g_run W H now (s_mp s1) c acts g).
+  Proof.
+    intros CI [Ho [tg Ht]] Etg Hin. cbv zeta. unfold draw_actions. rewrite Etg.
+    set (bars := stored_frame W (s_mp s1) (get_bar s1 b)).
+    cbn [mp_run g_run mp_exec1 g_act].
+    set (m1 := ms_store (s_mp s1) idx [] bars).
+    assert (CI1 : CoreInv m1) by exact (mt_core _ _ _ (ms_store_trans (s_mp s1) idx [] bars CI Hin)).
+    assert (Ht1 : ms_target m1 = TTerm tg) by exact Ht.
+    assert (Ho1 : ms_orphans m1 = []) by (unfold m1, ms_store; cbn; rewrite Ho; reflexivity).
+    assert (Hht : ms_has_text m1 None = false) by (unfold ms_has_text; rewrite Ho1; reflexivity).
+    assert (Ha : ms_attempt W m1 (true || finished (get_bar s1 b)) None now = true)
+      by (cbn [orb]; exact (attempt_forced W m1 None now tg Ht1)).
+    pose proof (draw_clean W H m1 (true || finished (get_bar s1 b)) None now c tg g CI1 Ht1 Ha Hht) as Hc.
+    unfold fst4 in Hc.
+    destruct (ms_draw W H nofaults m1 (true || finished (get_bar s1 b)) None now c) as [[[m2 e2] c2] ok2].
+    cbn [fst snd] in *. rewrite Ha. exact Hc.
+  Qed.
+
+  (** finish / finish_and_clear / abandon / force-draw of a member, MultiProgress::remove: after the
+      call the live rows are exactly the stored lines of the members in the ordering (in ordering
+      order; the removed bar's slot is no longer in it, a cleared bar stores no line) *)
+  Theorem c02_live_forced s now o g :
+    MInv s -> op_ok s o = true -> J (s_mp s) -> forced_member_op s o = true ->
+    Clean W (s_mp (step_sys W H nofaults s now o))
+          (g_run W H now (s_mp s) (s_calls s) (op_actions W s now o) g).
+  Proof.
+    intros MI Hok HJ Hfm.
+    pose proof (step_mp W H nofaults s now o) as [Hmp _]. cbn [fst] in Hmp. rewrite Hmp.
+    pose proof (MInv_core s MI) as CI.
+    assert (Hd : forall b f, keeps_target f -> alive s b = true -> is_member s b = true ->
+              Clean W (fst (fst (mp_run W H nofaults now (s_mp s) (s_calls s) (draw_actions W (upd_bar s b f) b true))))
+                      (g_run W H now (s_mp s) (s_calls s) (draw_actions W (upd_bar s b f) b true) g)).
+    { intros b f Hf Hal Hm. destruct (is_member_target s b Hm) as [idx Htg].
+      apply (forced_member_clean (upd_bar s b f) b idx now (s_calls s) g CI HJ).
+      - rewrite (target_upd s b f Hf). exact Htg.
+      - exact (proj1 (mi_alive s MI b idx Hal Htg)). }
+    destruct o; try discriminate Hfm; cbn [forced_member_op] in Hfm; cbn [op_actions];
+      assert (Hal : alive s b = true) by (unfold op_ok in Hok; cbn in Hok; apply andb_prop in Hok; exact (proj1 Hok)).
+    - apply (Hd b (finish_upd k) (finish_upd_target k) Hal Hfm).
+    - apply (Hd b (finish_upd (b_on_finish (get_bar s b))) (finish_upd_target _) Hal Hfm).
+    - destruct (is_member_target s b Hfm) as [idx Htg].
+      exact (forced_member_clean s b idx now (s_calls s) g CI HJ Htg (proj1 (mi_alive s MI b idx Hal Htg))).
+    - destruct (is_member_target s b Hfm) as [idx Htg].
+      exact (forced_member_clean s b idx now (s_calls s) g CI HJ Htg (proj1 (mi_alive s MI b idx Hal Htg))).
+    - (* ORemove *)
+      destruct (is_member_target s b Hfm) as [idx Htg]. rewrite Htg.
+      destruct (run_cons_nodraw W H now (s_mp s) (s_calls s) (ARemove idx) [ADraw true None]
+                  (ms_remove_idx (s_mp s) idx) eq_refl) as [E1 E2].
+      rewrite E1, E2. cbn [g_act mp_run g_run mp_exec1].
+      set (m1 := ms_remove_idx (s_mp s) idx).
+      assert (CI1 : CoreInv m1).
+      { apply remove_idx_core; [exact CI|]. left. exact (proj1 (mi_alive s MI b idx Hal Htg)). }
+      destruct (J_remove (s_mp s) idx HJ) as [Ho1 [tg Ht1]]. fold m1 in Ho1, Ht1.
+      assert (Hht : ms_has_text m1 None = false) by (unfold ms_has_text; rewrite Ho1; reflexivity).
+      pose proof (attempt_forced W m1 None now tg Ht1) as Ha.
+      pose proof (draw_clean W H m1 true None now (s_calls s) tg g CI1 Ht1 Ha Hht) as Hc. unfold fst4 in Hc.
+      destruct (ms_draw W H nofaults m1 true None now (s_calls s)) as [[[m2 e2] c2] ok2].
+      cbn [fst snd] in *. rewrite Ha. exact Hc.
+  Qed.
+End LiveForced.
+
+(** the screen equation holds after EVERY call of a history (the hypotheses are closed under prefixes) *)
+Theorem c02_screen_every_prefix W H pre s0 t0 h1 h2 : 1 <= W -> 1 <= H ->
+  ms_initial s0 -> ready (N.to_nat W) (N.to_nat H) pre t0 -> FitsAll W H s0 (h1 ++ h2) ->
+  let g := snd (fst (ms_run W H (s0, mghost0, t0) h1)) in
+  let t := snd (ms_run W H (s0, mghost0, t0) h1) in
+  (exists k, screen (N.to_nat W) t
+             = map (pad (N.to_nat W)) (ms_expected W pre g) ++ repeat (repeat SP (N.to_nat W)) k)
+  /\ next_cell (N.to_nat W) t = (length (ms_expected W pre g), 0%nat).
+Proof.
+  intros HW HH Hi Hr Hf.
+  exact (c02_screen W H HW HH pre s0 t0 h1 Hi Hr (FitsAll_prefix W H h1 h2 s0 Hf)).
+Qed.
+
+Theorem c03_log_every_prefix W H pre s0 t0 h1 h2 : 1 <= W -> 1 <= H ->
+  ms_initial s0 -> ready (N.to_nat W) (N.to_nat H) pre t0 -> FitsAll W H s0 (h1 ++ h2) ->
+  let s := fst (fst (ms_run W H (s0, mghost0, t0) h1)) in
+  let g := snd (fst (ms_run W H (s0, mghost0, t0) h1)) in
+  let t := snd (ms_run W H (s0, mghost0, t0) h1) in
+  mg_log g = hist_log W H s0 h1
+  /\ (exists k, screen (N.to_nat W) t
+        = map (pad (N.to_nat W)) (pre ++ wrap (N.to_nat W) (hist_log W H s0 h1) ++ mg_kept g ++ mg_live g)
+          ++ repeat (repeat SP (N.to_nat W)) k)
+  /\ length (mg_kept g) = N.to_nat (ms_zombie_lines (s_mp s))
+  /\ length (mg_live g) = N.to_nat (target_n (ms_target (s_mp s)))
+  /\ ms_orphans (s_mp s) = [].
+Proof.
+  intros HW HH Hi Hr Hf.
+  exact (c03_log W H pre s0 t0 h1 HW HH Hi Hr (FitsAll_prefix W H h1 h2 s0 Hf)).
+Qed.
